@@ -256,6 +256,9 @@ func c07Case(w *core.W, m *c07Model) {
 		fail("no-panic", fmt.Sprintf("%v", rec), map[string]string{"site": site})
 		return
 	}
+	if c07WrapSample(m) {
+		c07Wrapped(w, m, p, err, ex, exErr, fail)
+	}
 	code := errCode(err)
 	w.Class(fmt.Sprintf("ref=%s code=%d", map[bool]string{true: "ok", false: refErr}[refErr == ""], code))
 	w.S.Nontrivial++
@@ -312,6 +315,107 @@ func c07Case(w *core.W, m *c07Model) {
 		}
 		if parts[0] != k.Name+o || !okFrom {
 			fail("inherited-marks", fmt.Sprintf("property %d is %q (key?optional<InheritedFrom), expected %s%s from one of %v", i, inner[i], k.Name, o, rootM.from[k.Name]), map[string]string{"what": map[bool]string{true: "status", false: "origin"}[okFrom]})
+			return
+		}
+	}
+}
+
+// c07WrapSample: a deterministic eighth of the models also runs as a nested heir.
+func c07WrapSample(m *c07Model) bool {
+	t := m.Types["@root"]
+	if t == nil || t.Shape != "object" {
+		return false
+	}
+	h := len(t.Own)*7 + len(t.AllOf)*3 + len(t.AP)
+	for n, x := range m.Types {
+		h += len(n) + len(x.Own)*5 + len(x.AllOf)*11 + len(x.AP)*13
+	}
+	return h%8 == 0
+}
+
+// c07Wrapped: the same heir written inline - as a property of a registered type with
+// properties before and after it, inside the root schema, and as an array item of a
+// type - must be refused or merged exactly like the heir that is the root.
+func c07Wrapped(w *core.W, m *c07Model, base *project, baseErr error, baseEx []byte, baseExErr error, fail func(string, string, map[string]string)) {
+	heir := base.Root
+	indent := func(s, by string) string { return strings.ReplaceAll(s, "\n", "\n"+by) }
+	// a trailing annotation of a one-line heir ("{} // {allOf: ...}") has to follow the comma
+	place := func(prefix, by, comma string) string {
+		t := indent(heir, by)
+		if i := strings.Index(t, " // "); i >= 0 && !strings.Contains(t, "\n") {
+			return prefix + t[:i] + comma + t[i:]
+		}
+		return prefix + t + comma
+	}
+	variants := []struct {
+		name  string
+		root  string
+		wtype string
+		path  []string
+	}{
+		{"property-of-type", "@w", "{\n\t\"head\": 0,\n" + place("\t\"inner\": ", "\t", ",") + "\n\t\"tail\": 2\n}", []string{"inner"}},
+		{"property-of-root", "{\n" + place("\t\"inner\": ", "\t", ",") + "\n\t\"tail\": 2\n}", "", []string{"inner"}},
+		{"item-of-type", "{\n\t\"x\": @w\n}", "{\n\t\"a\": [\n" + place("\t\t", "\t\t", "") + "\n\t],\n\t\"tail\": 2\n}", []string{"x", "a", "0"}},
+	}
+	for _, v := range variants {
+		q := &project{Root: v.root, Types: map[string]string{}}
+		for n, t := range base.Types {
+			q.Types[n] = t
+		}
+		if v.wtype != "" {
+			q.Types["@w"] = v.wtype
+		}
+		var err, exErr error
+		var ex []byte
+		rec, site := guard(func() {
+			root, berr := buildProject(q)
+			if berr != nil {
+				err = berr
+				return
+			}
+			if err = root.Check(); err == nil {
+				ex, exErr = root.Example()
+			}
+		})
+		w.S.Evaluations++
+		sig := map[string]string{"where": v.name}
+		if rec != nil {
+			fail("no-panic", fmt.Sprintf("nested heir (%s): %v at %s", v.name, rec, site), sig)
+			return
+		}
+		if (err == nil) != (baseErr == nil) {
+			fail("nested-heir-like-root-heir", fmt.Sprintf("%s: the heir as root: %s; nested in %s: %s", v.name, errStr(baseErr), trunc(q.describe(), 200), errStr(err)), sig)
+			return
+		}
+		if err != nil || baseExErr != nil {
+			continue
+		}
+		bt, e1 := ref.DecodeOrdered(baseEx)
+		wt, e2 := ref.DecodeOrdered(ex)
+		if exErr != nil || e1 != nil || e2 != nil {
+			fail("nested-heir-like-root-heir", fmt.Sprintf("%s: Example() of the nested form: %s err=%v", v.name, trunc(string(ex), 100), exErr), sig)
+			return
+		}
+		cur, ok := wt, true
+		for _, step := range v.path {
+			next := false
+			if cur.Kind == 'o' {
+				for i, k := range cur.Keys {
+					if k == step {
+						cur, next = cur.Items[i], true
+						break
+					}
+				}
+			} else if cur.Kind == 'a' && step == "0" && len(cur.Items) > 0 {
+				cur, next = cur.Items[0], true
+			}
+			if !next {
+				ok = false
+				break
+			}
+		}
+		if !ok || cur.String() != bt.String() {
+			fail("nested-heir-like-root-heir", fmt.Sprintf("%s: the heir as root gives %s, nested it gives %s (whole example %s)", v.name, trunc(string(baseEx), 80), trunc(cur.String(), 80), trunc(string(ex), 120)), sig)
 			return
 		}
 	}
